@@ -7,8 +7,8 @@ _sp_cache = {}
 IDP_C = 'urn:vp:idpC'        # known to the SP, publishes an encryption key only
 
 
-def _sp(tmp, wr, wa, wo):
-    k = (wr, wa, wo)
+def _sp(tmp, wr, wa, wo, via='SPConfig'):
+    k = (wr, wa, wo, via)
     _sp_cache.clear()          # a fresh SP per evaluation: outcomes must not depend on what the SP saw before
     if k not in _sp_cache:
         opts = {}
@@ -18,8 +18,23 @@ def _sp(tmp, wr, wa, wo):
             opts['want_assertions_signed'] = wa
         if wo is not None:
             opts['want_assertions_or_response_signed'] = wo
-        _sp_cache[k] = world.make_sp(tmp, [world.idp_md(keys=(('idpA', 'signing'),)), world.idp_md(world.IDP_B, keys=(('idpB', 'signing'),)),
-                                           world.idp_md(IDP_C, keys=(('idpAenc', 'encryption'),), sso=(('https://idpc.example/sso', world.BINDING_HTTP_REDIRECT),), slo=())], **opts)
+        mds = [world.idp_md(keys=(('idpA', 'signing'),)), world.idp_md(world.IDP_B, keys=(('idpB', 'signing'),)),
+               world.idp_md(IDP_C, keys=(('idpAenc', 'encryption'),), sso=(('https://idpc.example/sso', world.BINDING_HTTP_REDIRECT),), slo=())]
+        if via == 'SPConfig':
+            _sp_cache[k] = world.make_sp(tmp, mds, **opts)
+        else:
+            # the same configuration dictionary loaded through another documented route: a plain Config, or an
+            # IdPConfig whose dictionary carries an idp section next to the sp section
+            from saml2_tophat.config import Config, IdPConfig
+            from saml2_tophat.client import Saml2Client
+            d = world.sp_config(tmp, mds, **opts)
+            if via == 'IdPConfig':
+                d['service']['idp'] = {'endpoints': {'single_sign_on_service': [('https://spx.example/idp/sso', world.BINDING_HTTP_REDIRECT)]}}
+                c = IdPConfig()
+            else:
+                c = Config()
+            c.load(d)
+            _sp_cache[k] = Saml2Client(config=c)
     return _sp_cache[k]
 
 
@@ -40,7 +55,8 @@ IDENTS = {
     'id1': dict(subject='bob-é', attrs=(('sn', ('Böb & <co>',)), ('title', ('x', 'y', 'z')))),
 }
 
-CORRUPTIONS = ('none', 'ass-content', 'ass-sigvalue', 'resp-content', 'resp-sigvalue', 'ass-wrongkey', 'resp-wrongkey')
+CORRUPTIONS = ('none', 'ass-content', 'ass-sigvalue', 'resp-content', 'resp-sigvalue', 'ass-wrongkey', 'resp-wrongkey',
+               'ass-unfilled-template', 'resp-unfilled-template')
 
 
 def cells(thorough):
@@ -55,6 +71,8 @@ def cells(thorough):
                     if cor.startswith('resp') and not sr:
                         continue
                     if cor.endswith('wrongkey') and not thorough:
+                        continue
+                    if cor.endswith('unfilled-template') and enc and not thorough:
                         continue
                     for ident in (IDENTS if thorough else ['id0'] if (cor != 'none') else IDENTS):
                         out.append(dict(wr=wr, wa=wa, wo=wo, sr=sr, sa=sa, enc=enc, cor=cor, ident=ident, primed=False))
@@ -84,6 +102,17 @@ def cells(thorough):
             for enc in (False, True):
                 for k in ('idpA', 'mallory'):
                     out.append(dict(wr=wr, wa=wa, wo=wo, sr=sr, sa=sa, enc=enc, cor='issuer-without-signing-key:' + k, ident='id0', primed=False))
+    # the same table for clients built from another configuration class
+    for via in ('Config', 'IdPConfig'):
+        for wr, wa, wo in itertools.product(opts, repeat=3):
+            for sr, sa in itertools.product(opts, repeat=2):
+                out.append(dict(wr=wr, wa=wa, wo=wo, sr=sr, sa=sa, enc=False, cor='none', ident='id0', primed=False, via=via))
+    # nothing readable: the only assertion is encrypted for a key the SP does not hold (also right after the same SP
+    # accepted a genuine signed and encrypted message)
+    for wr, wa, wo in itertools.product(opts, repeat=3):
+        for sr in opts:
+            for primed in (False, True):
+                out.append(dict(wr=wr, wa=wa, wo=wo, sr=sr, sa=False, enc=True, cor='undecryptable', ident='id0', primed=primed))
     # mixed shape: one (validly signed) encrypted assertion next to a plain assertion whose signature is
     # valid / corrupted / absent.  Only the reject direction is demanded here (saml2int allows one assertion).
     for wr, wa, wo in itertools.product(opts, repeat=3):
@@ -133,6 +162,15 @@ def build(cell, now):
     if cor == 'ass-content':
         # edit signed assertion content after the assertion signature, before encryption / response signature
         kw['mutate_after_ass_sign'] = lambda x: x.replace('SessionIndex="s1"', 'SessionIndex="s2"', 1)
+    elif cor == 'undecryptable':
+        kw['encrypt'] = 'spY'
+    elif cor == 'ass-unfilled-template':
+        # the signature element is there but nobody ever filled it in
+        kw['sign_ass'] = False
+        a['extra_first'] = forge.sig_template('A1')
+    elif cor == 'resp-unfilled-template':
+        kw['sign_resp'] = False
+        kw['mutate_final'] = lambda x: x.replace('</saml:Issuer>', '</saml:Issuer>' + forge.sig_template('R1'), 1)
     elif cor == 'ass-sigvalue':
         kw['mutate_after_ass_sign'] = flip_sigvalue(0)
     elif cor == 'resp-content':
@@ -149,7 +187,7 @@ def expected(cell):
         plain = cell['cor'][6:]
         req = (not cell['wr'] or cell['sr']) and (not cell['wa'] or plain == 'signed') and (not cell['wo'] or cell['sr'] or plain == 'signed')
         return None if (req and plain != 'corrupted') else False      # None: acceptance not demanded
-    if cell['cor'].startswith('issuer-without-signing-key'):
+    if cell['cor'].startswith('issuer-without-signing-key') or cell['cor'] == 'undecryptable':
         return False
     wr = True if cell['wr'] is None else cell['wr']      # documented default: want_response_signed = True
     wa = bool(cell['wa'])
@@ -168,7 +206,7 @@ def evaluate(cell):
     env.Seam.reset()
     if cell.get('after'):
         _sp(TMP[0], *{'lax': (False, False, False), 'strict': (True, True, True)}[cell['after']])
-    sp = _sp(TMP[0], cell['wr'], cell['wa'], cell['wo'])
+    sp = _sp(TMP[0], cell['wr'], cell['wa'], cell['wo'], cell.get('via') or 'SPConfig')
     if cell.get('primed'):
         # non-initial state: the same SP has just accepted a genuine, fully signed message with the same IDs
         if cell['enc'] not in PRISTINE:
@@ -225,7 +263,7 @@ def run(ctx):
         'level': 'exploration',
         'coverage': {
             'evaluations': len(cs), 'distinct_nontrivial': len(nontrivial),
-            'rule': 'complete product: 8 want_* settings (+ options-absent row group, also after an SP with explicit lax / strict options was built in the same process) x {response,assertion} signed x plain / encrypted for the static key / encrypted for a per-request key (outstanding_certs) x corruption kind (content edit / SignatureValue flip%s of each present signature) x identities; messages in the name of an issuer that publishes no signing key, signed with the key of another entity or a foreign key; x {fresh SP, SP that has just accepted a genuine message with the same IDs}; non-trivial = at least one requirement enabled or one signature present; distinct = distinct cell coordinates' % (' / signed by a non-metadata key' if ctx.thorough else ''),
+            'rule': 'complete product: 8 want_* settings (+ options-absent row group, also after an SP with explicit lax / strict options was built in the same process) x {response,assertion} signed x plain / encrypted for the static key / encrypted for a per-request key (outstanding_certs) x corruption kind (content edit / SignatureValue flip / never filled-in signature template%s of each present signature) x identities; clients built from a plain Config and from an IdPConfig carrying both sections; an assertion encrypted for a key the SP does not hold; messages in the name of an issuer that publishes no signing key, signed with the key of another entity or a foreign key; x {fresh SP, SP that has just accepted a genuine message with the same IDs}; non-trivial = at least one requirement enabled or one signature present; distinct = distinct cell coordinates' % (' / signed by a non-metadata key' if ctx.thorough else ''),
             'samples': samples, 'exhaustive': True, 'accepted_cells': n_acc,
             'distinct_outcomes': len(outcomes), 'outcome_histogram': {'%s/%s' % k: v for k, v in sorted(outcomes.items(), key=str)},
             'dimensions': {'want_response_signed': [False, True, 'absent'], 'want_assertions_signed': [False, True, 'absent'],
@@ -243,7 +281,7 @@ def forge_subject(c):
 
 def replay(ctx, w):
     TMP[0] = ctx.tmp
-    cell = {k: w.get(k) for k in ('wr', 'wa', 'wo', 'sr', 'sa', 'enc', 'cor', 'ident', 'primed', 'after')}
+    cell = {k: w.get(k) for k in ('wr', 'wa', 'wo', 'sr', 'sa', 'enc', 'cor', 'ident', 'primed', 'after', 'via')}
     r = evaluate(cell)
     exp = expected(cell)
     return {'violation': exp is not None and r['accept'] != exp, 'observed': r, 'expected_accept': exp}
